@@ -44,6 +44,7 @@ func lockClassName(f *types.Var) string {
 var fieldOwner = map[*types.Var]string{}
 
 func (p *Program) indexFieldOwners() {
+	fieldOwner = map[*types.Var]string{}
 	for _, nt := range p.namedAll {
 		if st, ok := nt.Underlying().(*types.Struct); ok {
 			for i := 0; i < st.NumFields(); i++ {
@@ -253,9 +254,6 @@ var lockAnalysisCache = map[*Program]*lockAnalysis{}
 func getLockAnalysis(p *Program) *lockAnalysis {
 	if la, ok := lockAnalysisCache[p]; ok {
 		return la
-	}
-	if len(fieldOwner) == 0 || true {
-		p.indexFieldOwners()
 	}
 	la := &lockAnalysis{p: p, facts: map[*ssa.Function]*lockFacts{}, summaries: map[*ssa.Function]funcSummary{}}
 	for iter := 0; iter < 6; iter++ {
